@@ -239,7 +239,8 @@ def run(chk, repo, tier):
         raise AnalysisError(f'N2: only {len(families)} per-kind variable families found')
     for fam, members in sorted(families.items()):
         for k, v in sorted(members.items()):
-            getters = re.findall(r'get_(thetas|omegas|sigmas)\(', unparse(v))
+            # the getter of the kind, called here or handed to a local helper as a function (of_kind(ser, get_thetas))
+            getters = re.findall(r'get_(thetas|omegas|sigmas)\b', unparse(v))
             chk.instance(N2, f'{fam}_{k}: uses {getters}')
             wrong = [g for g in getters if g != k + 's']
             if wrong or not getters:
